@@ -64,13 +64,19 @@ def add_twins(source):
     return source + '\n\n# ---- reachability twins (generated) ----\n\n' + '\n\n'.join(extra) + '\n'
 
 
+def hashseed_of(source):
+    """interpreter hash seed a harness runs (and is replayed) under: a line `# PYTHONHASHSEED = n` in its source, default 0"""
+    m = re.search(r'^# PYTHONHASHSEED = (\d+)\s*$', source, re.M)
+    return m.group(1) if m else '0'
+
+
 def _run_one(path, fname, tmo, ppt=None):
     # CrossHair's default per-path budget is sqrt(condition budget); a path cut
     # short is UNKNOWN for good, and 16 loaded cores make that common
     ppt = ppt or max(30.0, tmo / 3.0)
     cmd = [PY, '-m', 'vlib.xh_worker', path, fname, str(tmo)] + ([str(ppt)] if ppt else [])
     env = dict(os.environ, PYTHONPATH=pythonpath(os.path.dirname(path), os.path.join(ROOT, 'harness')), PYTHONWARNINGS='ignore',
-               PYTHONHASHSEED='0')
+               PYTHONHASHSEED=hashseed_of(open(path).read()))
     t0 = time.time()
     try:
         p = subprocess.run(cmd, capture_output=True, text=True, timeout=tmo * 1.6 + 60, env=env,
@@ -100,6 +106,9 @@ REPLAY_TEMPLATE = '''\
 # Replay of a CrossHair counterexample: runs the harness condition concretely
 # (plain interpreter, no CrossHair) against /repo.  Exit 1 = violation reproduces.
 import sys, os, importlib.util
+if os.environ.get('PYTHONHASHSEED') != {hashseed!r}:     # same interpreter hash seed as the run that found it
+    os.environ['PYTHONHASHSEED'] = {hashseed!r}
+    os.execv(sys.executable, [sys.executable] + sys.argv)
 sys.setrecursionlimit(5000)
 sys.path.insert(0, '/verif/harness'); sys.path.insert(0, '/verif'); sys.path.insert(0, {hdir!r})
 os.environ.setdefault('PYTHONWARNINGS', 'ignore')
@@ -164,7 +173,7 @@ class Harness:
     def replay_source(self, fname, argtext):
         p = self.persist()
         return REPLAY_TEMPLATE.format(hdir=os.path.dirname(p), mod=os.path.splitext(os.path.basename(p))[0],
-                                      path=p, call='_cap(%s)' % argtext, fname=fname)
+                                      path=p, call='_cap(%s)' % argtext, fname=fname, hashseed=hashseed_of(self.source))
 
     def run(self, timeout, only=None, bounds=None, classify=None, ppt=None, twin_timeout=None,
             public_replay=None):
